@@ -247,6 +247,31 @@ fn q_ms_alloc_binheap() {
     assert!(h.heap_size() == h.capacity() * size_of::<Box<u16>>() + h.len() * 2);
 }
 
+// ---- C08: a user type WITHOUT drop glue that still reports heap memory (an arena handle, an index into an external
+//      block): containers must add up what their elements report, not what the type system lets them guess ----------
+#[derive(Clone, Copy)]
+struct Handle(u8);
+impl HeapSize for Handle { fn heap_size(&self) -> usize { self.0 as usize } }
+#[kani::proof]
+#[kani::unwind(5)]
+fn q_ms_user_nodrop() {
+    let a: u8 = kani::any();
+    let b: u8 = kani::any();
+    kani::assume(a <= 9 && b <= 9);
+    let sum = a as usize + b as usize;
+    let arr = [Handle(a), Handle(b)];
+    assert!(arr.heap_size() == sum, "array of drop-free elements: element heap sizes not added up");
+    assert!(arr[..].heap_size() == sum, "slice of drop-free elements: element heap sizes not added up");
+    let mut v: Vec<Handle> = Vec::with_capacity(2);
+    v.push(Handle(a)); v.push(Handle(b));
+    assert!(v.heap_size() == v.capacity() * size_of::<Handle>() + sum, "Vec of drop-free elements: element heap sizes not added up");
+    assert!(Handle::heap_size_sum_iter(|| v.iter()) == sum && Handle::heap_size_sum_exact_size_iter(|| v.iter()) == sum);
+    let bx: Box<[Handle]> = v.clone().into_boxed_slice();
+    assert!(bx.heap_size() == 2 * size_of::<Handle>() + sum);
+    assert!(Some(Handle(a)).heap_size() == a as usize && (Handle(a), Handle(b)).heap_size() == sum);
+    assert!(Handle(a).mem_size() == size_of::<Handle>() + a as usize);
+}
+
 // ---- thorough -------------------------------------------------------------------------------------------------------
 #[kani::proof]
 #[kani::unwind(5)]
